@@ -577,3 +577,129 @@ Proof.
     + unfold obj_start, dl0. cbn [p_comp p_off]. lia.
     + unfold obj_start, dl0. cbn [p_comp p_off]. lia.
 Qed.
+
+(* ------------------------------------------------------------------ writePtr, all branches *)
+Lemma xp_step f : X_cs f -> X_wp (S f).
+Proof.
+  intros QC w objs pads q src fc w' L0 N [H C] Hq Vs C0 LE Hfc HW Hb.
+  assert (INL : (p_valid src = false \/ p_kind src = KStruct /\ os_isZero (p_size src) = true \/
+                 p_kind src = KIface /\ 0 <= p_len src < 4294967296) ->
+                exists eo ep, tinv w' (objs ++ eo) (pads ++ ep) /\
+                  CL (w_dst w') (objs ++ eo) (pads ++ ep) L0 (N ++ eo) /\ freshL (lenf (w_dst w)) eo).
+  { intros Hsrc. destruct (x_inline f w objs pads q src fc w' L0 N (conj H C) Hq C0 Hsrc HW) as [T' C'].
+    apply x_none; auto. }
+  assert (PLC : p_valid src = true -> In (core src) objs -> p_member src = false -> fc = false ->
+                exists eo ep, tinv w' (objs ++ eo) (pads ++ ep) /\
+                  CL (w_dst w') (objs ++ eo) (pads ++ ep) L0 (N ++ eo) /\ freshL (lenf (w_dst w)) eo).
+  { intros Hv Hin Hm Hf. subst fc.
+    destruct (x_placed f w objs pads q src w' L0 N (conj H C) Hq C0) as (ep & T' & C'); auto.
+    { intros Ha. specialize (Hfc Ha). rewrite Hm in Hfc. discriminate. }
+    exists [], ep. rewrite !app_nil_r. split; [exact T'|]. split; [exact C'|]. intros h []. }
+  destruct (p_valid src) eqn:Hv; [|apply INL; auto].
+  pose proof Vs as Vs0.
+  destruct Vs as [V|[[M V]|[(hl & i & Hhl & MA)|[(Ek & Esz & _)|(Ek & Hl & _)]]]]; [congruence| | | |].
+  - (* a handle of a table object *)
+    destruct fc; [|apply PLC; auto].
+    destruct (p_kind src) eqn:Ek.
+    + destruct (os_isZero (p_size src)) eqn:EZ; [apply INL; auto|].
+      destruct (xstruct_copy f QC w objs pads q src true w' L0 N) as (h & eo & ep & T & _ & CLr & Fr & _); auto; [split; auto|].
+      exists (h :: eo), ep. auto.
+    + destruct (xlist_copy f QC w objs pads q src w' L0 N) as (h & eo & ep & T & _ & CLr & Fr & _); auto; [split; auto|].
+      exists (h :: eo), ep. auto.
+    + exfalso. destruct (core_facts src) as (_ & _ & _ & _ & _ & _ & C7).
+      destruct (hi_good _ _ _ H _ V) as [_ (Sh & _)]. apply (proj1 C7) in Sh. unfold shape_ok in Sh. rewrite Ek in Sh. exact Sh.
+  - (* a list member *)
+    destruct MA as (_ & _ & _ & _ & _ & _ & _ & Ek & Hm).
+    destruct (os_isZero (p_size src)) eqn:EZ; [apply INL; auto|].
+    destruct (xstruct_copy f QC w objs pads q src fc w' L0 N) as (h & eo & ep & T & _ & CLr & Fr & _); auto;
+      [split; auto|rewrite Hm; apply Bool.orb_true_r|].
+    exists (h :: eo), ep. auto.
+  - apply INL. right. left. split; [exact Ek|]. rewrite Esz. reflexivity.
+  - apply INL. right. right. auto.
+Qed.
+
+(* [closure_all]: the strengthened [copy_all] *)
+Theorem closure_all : forall f, X_wp f /\ X_cs f.
+Proof.
+  induction f as [|f [IW IC]].
+  - split.
+    + intros w objs pads q src fc w' L0 N _ _ _ _ _ _ HW. discriminate HW.
+    + intros w objs pads dst src w' L0 N _ _ _ _ _ _ _ HW. discriminate HW.
+  - split; [apply xp_step; exact IC|apply xs_step; exact IW].
+Qed.
+
+(* ------------------------------------------------------------------ the closure *)
+(* nothing of the table lies at or beyond the current lengths *)
+Lemma CL_initial m objs pads : hinv m objs pads -> CL m objs pads (lenf m) [].
+Proof.
+  intros H s Hs Ha. exfalso. destruct (slot_geometry _ _ _ _ H Hs) as (_ & _ & _ & Q4 & _). unfold lenf in Ha. lia.
+Qed.
+
+Lemma le_len_refl m : le_len (lenf m) m.
+Proof. intros i _. unfold lenf. lia. Qed.
+
+(* the slots of an entry that starts beyond L lie beyond L *)
+Lemma fresh_slots m T P (L : Z -> Z) eo s :
+  hinv m T P -> incl eo T -> freshL L eo -> In s (flat_map slots eo) -> L (fst s) <= snd s.
+Proof.
+  intros H I F Hs. apply in_flat_map in Hs. destruct Hs as (h & Hh & Hs).
+  destruct (hi_good _ _ _ H h (I h Hh)) as [V G]. destruct (slot_in_obj _ _ _ V G Hs) as (S1 & S2 & _).
+  specialize (F h Hh). assert (OS : obj_start h <= p_off h) by (unfold obj_start; destruct (p_comp h); lia).
+  rewrite S1. lia.
+Qed.
+
+(* the set of new entries is closed under "the pointer stored in a slot": every slot of a new
+   entry holds null, the inline empty struct, a capability index, or a pointer (through pads)
+   to a new entry *)
+Definition closed (m : bmsg) (P : list region) (eo : list Ptr) : Prop :=
+  forall s, In s (flat_map slots eo) -> slot_ok (bm_data m) P eo s.
+
+(* [copy_closure]: a copying writePtr inside one message (forceCopy - set by copyStruct for every
+   pointer it copies, so SetStruct, CopyFrom and everything below them - or a list-member source;
+   non-empty struct or list), for every fuel, arena configuration and table: the tables grow by
+   h :: eo with
+   (1) the slot written holds a pointer placed to h, and resolves to h ([fresh_target]);
+   (2) every new entry starts at or beyond the end its segment had before the call (a segment that
+       did not exist had length 0), hence - [hinv] for the extended table - is disjoint from every
+       older entry, the source included;
+   (3) h :: eo is closed: every pointer slot of every new entry designates a new entry or nothing.
+   So no object reachable from the written slot, at any depth, existed before the call. *)
+Theorem copy_closure f w objs pads q src fc w' :
+  tinv w objs pads -> In q ((0, 0) :: flat_map slots objs) -> view objs src ->
+  p_valid src = true -> p_kind src <> KIface -> (p_kind src = KStruct -> os_isZero (p_size src) = false) ->
+  fc || p_member src = true ->
+  write_ptr (S f) true w (fst q) (snd q) InDst src fc = Ok w' -> nsegs (w_dst w') < B32 ->
+  exists h eo ep, tinv w' (objs ++ h :: eo) (pads ++ ep) /\ fresh_target w w' q h /\
+    slot_ok (bm_data (w_dst w')) (pads ++ ep) [h] q /\
+    freshL (lenf (w_dst w)) (h :: eo) /\
+    closed (w_dst w') (pads ++ ep) (h :: eo).
+Proof.
+  intros [H C] Hq Vs Hv Hni Hnz Hcp HW Hb. destruct (closure_all f) as [_ QC].
+  pose proof (CL_initial _ _ _ H) as C0. pose proof (le_len_refl (w_dst w)) as LE.
+  assert (Fin : forall h eo ep, tinv w' (objs ++ h :: eo) (pads ++ ep) /\ fresh_target w w' q h /\
+            CL (w_dst w') (objs ++ h :: eo) (pads ++ ep) (lenf (w_dst w)) ([] ++ h :: eo) /\ freshL (lenf (w_dst w)) (h :: eo) /\
+            slot_ok (bm_data (w_dst w')) (pads ++ ep) [h] q ->
+          tinv w' (objs ++ h :: eo) (pads ++ ep) /\ fresh_target w w' q h /\
+            slot_ok (bm_data (w_dst w')) (pads ++ ep) [h] q /\ freshL (lenf (w_dst w)) (h :: eo) /\
+            closed (w_dst w') (pads ++ ep) (h :: eo)).
+  { intros h eo ep (T & FT & CLr & Fr & Sq). split; [exact T|]. split; [exact FT|]. split; [exact Sq|]. split; [exact Fr|].
+    intros s Hs. cbn [app] in CLr. apply CLr.
+    - right. rewrite flat_map_app. apply in_or_app. right. exact Hs.
+    - apply (fresh_slots (w_dst w') (objs ++ h :: eo) (pads ++ ep) (lenf (w_dst w)) (h :: eo)); auto.
+      + exact (proj1 T).
+      + intros x Hx. apply in_or_app. right. exact Hx. }
+  pose proof Vs as Vs0.
+  destruct Vs as [V|[[M V]|[(hl & i & Hhl & MA)|[(Ek & Esz & _)|(Ek & Hl & _)]]]]; [congruence| | | |].
+  - rewrite M in Hcp. rewrite Bool.orb_false_r in Hcp. subst fc.
+    destruct (p_kind src) eqn:Ek.
+    + destruct (xstruct_copy f QC w objs pads q src true w' (lenf (w_dst w)) []) as (h & eo & ep & X); auto; [split; auto|].
+      exists h, eo, ep. apply Fin. exact X.
+    + destruct (xlist_copy f QC w objs pads q src w' (lenf (w_dst w)) []) as (h & eo & ep & X); auto; [split; auto|].
+      exists h, eo, ep. apply Fin. exact X.
+    + congruence.
+  - destruct MA as (_ & _ & _ & _ & _ & _ & _ & Ek & Hm).
+    destruct (xstruct_copy f QC w objs pads q src fc w' (lenf (w_dst w)) []) as (h & eo & ep & X); auto; [split; auto|].
+    exists h, eo, ep. apply Fin. exact X.
+  - exfalso. specialize (Hnz Ek). rewrite Esz in Hnz. discriminate.
+  - congruence.
+Qed.
